@@ -36,6 +36,12 @@ impl<AS: GuestAddressSpace> Net<AS> {
             mem,
         })
     }
+
+    /// Create a `Net` object from an already opened descriptor (verification harness only).
+    #[cfg(feature = "verif-hooks")]
+    pub fn with_fd(fd: File, mem: AS) -> Self {
+        Net { fd, mem }
+    }
 }
 
 impl<AS: GuestAddressSpace> VhostNet for Net<AS> {
